@@ -241,6 +241,7 @@ class IH5CrashEngine:
     }
 
     timeouts = {"thorough": 2400}
+    detcheck_runs = {"thorough": 1}
     MAX_POINTS = 1200
 
     def __init__(self):
